@@ -249,6 +249,11 @@ class C04:
         "parser additionally strips leading blanks of the doc string, which no encoder could protect)",
         "the read-back theorem assumes valid metric / label names and that a histogram (summary) metric has no label of its own called le (quantile)",
         "the writer passed to encode never fails (fail_after = -1); failing writers belong to C17",
+        "on Err the encoder may already have written the HELP/TYPE header of the failing (UNTYPED) family: the read-back of the families before it "
+        "is claimed when that header is readable too (valid name, help made of scalar values)",
+        "proved for ALL inputs in Coq (Props/C04.v): c04_roundtrip, c04_line_count, c04_append_only, c04_entry_points, c04_utf8, c04_err_iff and "
+        "c04_spec_model (spec_c04 holds of the model's answers for every family list under the oracle contract alone); the per-run part ties the "
+        "model to the implementation's bytes and re-checks the oracle contract on every number",
     ]
     quick_n = 600
     thorough_n = 6000
@@ -325,6 +330,10 @@ class C04:
         a, b, c, errors = [], [], [], []
         for p, path in zip(procs, files):
             out = p.communicate()[0]
+            if p.returncode != 0 and not re.search(r"Error", out):
+                # killed without a Coq error (memory pressure when many checks share the machine): once more, alone
+                p2 = subprocess.run(["timeout", "900", "coqc", "-noglob", "-Q", COQ, "PV", path], stdout=subprocess.PIPE, stderr=subprocess.STDOUT, text=True)
+                p, out = p2, p2.stdout
             if p.returncode != 0:
                 errors.append((path, out[-3000:])); continue
             ls = parse_nlist(out)
